@@ -12,8 +12,8 @@ STEP_W = {'transfer': 10, 'remove': 2, 'fill_to': 2, 'dilute': 1.5, 'new_contain
 
 PROFILES = {
     'C08': {'step_w': dict(STEP_W, solution=2.5, dilute=2), 'p_illegal': 0.03, 'p_infeasible': 0.02, 'p_stage': 0.15, 'post': (0, 1), 'steps': (3, 14)},
-    'C09': {'step_w': dict(STEP_W, remove=3.5), 'p_illegal': 0.01, 'p_infeasible': 0.0, 'p_stage': 0.45, 'post': (0, 0), 'steps': (3, 12)},
-    'C15': {'step_w': dict(STEP_W, remove=3, fill_to=3), 'p_illegal': 0.01, 'p_infeasible': 0.0, 'p_stage': 0.45, 'post': (0, 0), 'steps': (3, 12)},
+    'C09': {'step_w': dict(STEP_W, remove=3.5, solution=2.5), 'p_container_solvent': 0.6, 'p_illegal': 0.01, 'p_infeasible': 0.0, 'p_stage': 0.45, 'post': (0, 0), 'steps': (3, 12)},
+    'C15': {'step_w': dict(STEP_W, remove=3, fill_to=3, solution=2.5), 'p_container_solvent': 0.6, 'p_illegal': 0.01, 'p_infeasible': 0.0, 'p_stage': 0.45, 'post': (0, 0), 'steps': (3, 12)},
     'C16': {'step_w': STEP_W, 'p_illegal': 0.3, 'p_infeasible': 0.04, 'p_stage': 0.3, 'post': (1, 5), 'steps': (1, 8), 'p_unused': 0.1},
     'C17': {'step_w': dict(STEP_W, remove=8), 'p_illegal': 0.01, 'p_infeasible': 0.0, 'p_stage': 0.5, 'post': (0, 0), 'steps': (3, 10), 'stage_single_remove': True},
     'C19': {'step_w': dict(STEP_W, fill_to=4, dilute=3, new_container=2.5), 'p_illegal': 0.0, 'p_infeasible': 0.0, 'p_stage': 0.1, 'post': (0, 0), 'steps': (3, 10)},
